@@ -308,7 +308,16 @@ class World:
                 if len(op) > 1 and op[1] == 'other-config':
                     self.config['hash_type'] = other_hash(self.config['hash_type'])
                     self.config['loose_prefix_len'] = 0 if self.config['loose_prefix_len'] else 2
+                if len(op) > 1 and op[1] == 'other-target':
+                    # start over with another pack size target through the same live handle (anything the handle remembered
+                    # about the old configuration must go); handles other than the acting one are reopened afterwards
+                    self.config['pack_size_target'] = 60 if self.config['pack_size_target'] != 60 else 25
                 self.h.init_container(clear=True, **self.config)
+                if len(op) > 1 and op[1] == 'other-target':
+                    for j in range(len(self.handles)):
+                        if j != self.cur:
+                            self.handles[j].close()
+                            self.handles[j] = Container(self.root)
                 self.model = Model(self.config['hash_type'], self.model.universe)
                 m = self.model
                 self.damaged.clear()
